@@ -284,14 +284,30 @@ fn apply_update(parent: PathBuf, update: second_chance::Update<CachedFile>) -> R
     // after the parent directory instead.
     let mut cached = parent;
 
-    for entry in update.to_evict {
-        cached.push(entry.entry.file_name());
+    // Only keep the file names: every `DirEntry` keeps the directory
+    // stream it came from (a file descriptor) open, and we promise to
+    // never hold more than two file objects at once.  Drop the
+    // entries, and thus close the directory, before touching files.
+    let to_evict: Vec<_> = update
+        .to_evict
+        .iter()
+        .map(|entry| entry.entry.file_name())
+        .collect();
+    let to_move_back: Vec<_> = update
+        .to_move_back
+        .iter()
+        .map(|entry| entry.entry.file_name())
+        .collect();
+    std::mem::drop(update);
+
+    for name in to_evict {
+        cached.push(name);
         ensure_file_removed(&cached)?;
         cached.pop();
     }
 
-    for entry in update.to_move_back {
-        cached.push(entry.entry.file_name());
+    for name in to_move_back {
+        cached.push(name);
         match move_to_back_of_list(&cached) {
             Ok(()) => {}
             // Silently ignore ENOENT: things do disappear from caches.
